@@ -246,7 +246,14 @@ class PVLEncoder(object):
                 match.group(0)
             )
 
-        return elements.sub(replace, s), restore
+        # Characters that Python's textwrap regards as droppable white
+        # space (str.strip() does), but this grammar does not, are ordinary
+        # characters that must survive at the start or end of a line.
+        others = {ord(c): next(unused) for c in set(s)
+                  if c.isspace() and c not in ws}
+        restore.update({ord(v): chr(k) for k, v in others.items()})
+
+        return elements.sub(replace, s).translate(others), restore
 
     def encode(self, module: abc.Mapping) -> str:
         """Returns a ``str`` formatted as a PVL document based
